@@ -1,3 +1,4 @@
+mod astdump;
 mod c01;
 mod c08;
 mod c05;
